@@ -1,3 +1,4 @@
 //! Materialisers: token lists / logical documents -> real bytes.
 pub mod zipw;
 pub mod ods;
+pub mod xlsb;
